@@ -145,7 +145,8 @@ def long_table(chk, np, Program, libs, wd, rng):
 def odd_headers(chk, np, Program, libs, wd):
     """header names that need CSV quoting because they contain a line break, and names containing characters that some line
     splitters treat as line ends (form feed, NEL, U+2028): the columns behind them must still be found and read in order"""
-    names = ["plain", "elev\n(m)", "ff\x0cname", "nel\x85name", "ls\u2028name", "last"]
+    # " lead" / "lead" and "trail " / "trail": a header name is its exact text, blanks included, and never another column's
+    names = ["plain", "elev\n(m)", "ff\x0cname", "nel\x85name", "ls\u2028name", " lead", "lead", "trail ", "trail", "last"]
     rows = [[float(10 * r + c) for c in range(len(names))] for r in range(4)]
     import csv as _csv
     with open(os.path.join(wd, "odd.csv"), "w", newline="", encoding="utf-8") as f:
@@ -164,6 +165,18 @@ def odd_headers(chk, np, Program, libs, wd):
             ok, got = False, "%s: %s" % (type(e).__name__, str(e)[:120])
         if not ok:
             chk.finding("C17:csv:C17.Header:odd-name", "column %r was not read correctly: %s" % (nm, got), {"header": names, "requested": nm})
+    from mpilot.exceptions import MPilotError
+    for nm in (" plain", "plain ", " last", "Plain"):        # absent names that differ from a present one by a blank or by case: a missing header is reported
+        p = Program(libraries=libs, working_dir=wd)
+        p.add_command(p.find_command_class("EEMSRead"), "R", OrderedDict([("InFileName", "odd.csv"), ("InFieldName", nm)]))
+        chk.cov["evaluations"] += 1
+        try:
+            got = repr(p.commands["R"].result)[:120]
+        except MPilotError:
+            continue
+        except BaseException as e:
+            got = "%s: %s" % (type(e).__name__, str(e)[:120])
+        chk.finding("C17:csv:C17.AcceptedBadFile:near-header", "absent column %r was not reported as missing: %s" % (nm, got), {"header": names, "requested": nm})
 
 
 def check_C17(tier):
